@@ -80,8 +80,12 @@ def gen_candset(rng, L, R, names, big=None):
         cand[cl] = cand[cl].astype(object)
     if n and isinstance(pairs[0][1], str):
         cand[cr] = cand[cr].astype(object)
-    if n and rng.random() < 0.6:
+    r = rng.random()
+    if n and r < 0.5:
         cand.index = rng.sample(range(5000), n)
+    elif n and r < 0.7:
+        # repeated labels, as in a candidate set produced by filter_tables with n_jobs > 1
+        cand.index = [rng.randint(0, max(1, n // 2)) for _ in range(n)]
     return cand, cl, cr
 
 
@@ -209,8 +213,12 @@ def run_candset(seed, n):
         fd = corr_filters.make_filter(rng)
         L, R, names = T.gen_tables(rng, fd['kind'], max_rows=5)
         cand, cl, cr = gen_candset(rng, L, R, names)
-        if len(cand):
+        r_ = rng.random()
+        if len(cand) and r_ < 0.45:
             cand.index = rng.sample(range(5000), len(cand))
+        elif len(cand) and r_ < 0.8:
+            # repeated labels (a candidate set concatenated from per-job results)
+            cand.index = [rng.randint(0, max(1, len(cand) // 3)) for _ in range(len(cand))]
         nj = rng.choice([1, 1, 2, 3, 5, -1])
         try:
             with joblib.parallel_config(backend=T.C_BACKEND[0]):
@@ -229,10 +237,20 @@ def run_candset(seed, n):
         for a, b in zip(cand[cl].tolist(), cand[cr].tolist()):
             if (a, b) not in tab:
                 tab[(a, b)] = bool(fd['filt'].filter_pair(lv[a], rv[b]))
-        pos_of = {lab: k for k, lab in enumerate(cand.index.tolist())}
-        obs_pos = [pos_of[lab] for lab in out.index.tolist()]
+        # align the returned rows with the candidate rows (order is preserved; index labels may repeat)
+        import corr_meta as _M
         same_cols = list(out.columns) == list(cand.columns)
-        same_vals = same_cols and out.equals(cand.loc[out.index]) if len(cand) else True
+        crow = [(lab, tuple(_M.canon_cell(v) for v in r)) for lab, r in zip(cand.index.tolist(), cand.itertuples(index=False, name=None))]
+        orow = [(lab, tuple(_M.canon_cell(v) for v in r)) for lab, r in zip(out.index.tolist(), out.itertuples(index=False, name=None))] if same_cols else []
+        obs_pos, k, same_vals = [], 0, same_cols
+        for item in orow:
+            while k < len(crow) and crow[k] != item:
+                k += 1
+            if k == len(crow):
+                same_vals = False
+                break
+            obs_pos.append(k)
+            k += 1
         b = lambda x: 'true' if x else 'false'
         cand_lit = '[%s]' % '; '.join('(%d%%nat, %s, %s)' % (k, C.z(it.key(a)), C.z(it.key(bb)))
                                       for k, (a, bb) in enumerate(zip(cand[cl].tolist(), cand[cr].tolist())))
